@@ -7,6 +7,8 @@ Stages: proofs (Properties_C10.v) -> correspondence of the Coq model (vm_compute
   (3) make_response_filter / make_response_matcher on generated response keys x status codes, and the WIRING of the real
       create_state_machine (schema.as_state_machine()._response_matchers) on generated operations whose links sit on a subset of
       the documented keys vs Model machine_bundle,
+  (3b) expressions.evaluate(body, output, evaluate_nested=True) on generated bodies of arbitrary nesting (arrays of objects, arrays of arrays,
+      expression keys, unresolvable leaves at every depth) vs Model evaluate + an independent leaf-substitution reference,
   (4) OpenApiLink.extract + into_step_input on stub outputs with a target operation whose generated values are constants,
 -> oracle search: (a) property-level oracles on the same inputs (RFC 6901, grammar membership, OpenAPI key meaning),
   (b) a live state machine run against a scripted loopback API: every request to a link target must carry the values
@@ -692,11 +694,11 @@ def run(chk: core.Check):
     rng = chk.rng
     budget = 10 if chk.broken else 1
 
-    _timed(chk, stage_expressions, rng, (650 if quick else 9000))
+    _timed(chk, stage_expressions, rng, (550 if quick else 9000))
     _timed(chk, stage_pointers, rng, (450 if quick else 6000))
     _timed(chk, stage_status, rng, (300 if quick else 3000))
     _timed(chk, stage_machine, rng, (80 if quick else 600))
-    _timed(chk, stage_nested, rng, (250 if quick else 3000))
+    _timed(chk, stage_nested, rng, (200 if quick else 3000))
     _timed(chk, stage_links, rng, (30 if quick else 500))
     for f in chk.findings:
         chk.known(f, witness_fails(f["witness"]))
